@@ -3,8 +3,13 @@ import vf
 
 
 def run(ctx, args, config='default', timeout=3000):
-    r = vf.sh([vf.harness_bin('concd', config)] + [str(a) for a in args], timeout=timeout)
-    lines = r.stdout.strip().split('\n')
+    import subprocess
+    try:
+        r = vf.sh([vf.harness_bin('concd', config)] + [str(a) for a in args], timeout=timeout)
+        lines = r.stdout.strip().split('\n')
+    except subprocess.TimeoutExpired as e:
+        so = e.stdout.decode() if isinstance(e.stdout, bytes) else (e.stdout or '')
+        lines = so.strip().split('\n') + [f'FAIL the run did not finish within {timeout} s: some call on the shared instance never returns']
     vals = {}
     for l in lines:
         if l.startswith('VAL '):
@@ -22,13 +27,15 @@ def run(ctx, args, config='default', timeout=3000):
 
 def burst(ctx, instances, threads, calls, kind=None, what=''):
     """instances created in their own threads, first used by `threads` threads at once; values pooled over all instances"""
+    if getattr(ctx, 'conc_dead', False): return      # an earlier run never returned: reported already, do not wait again
     args = ['burst', instances, threads, calls] + ([kind] if kind is not None else [])
-    vals, dup, fails, done = run(ctx, args)
+    vals, dup, fails, done = run(ctx, args, timeout=120 + instances * threads * calls // 60)      # a call that never returns keeps the process alive
     tot = sum(len(v) for v in vals.values()); ctx.evaluations += tot; ctx.traces += tot
     mode = ' '.join(str(a) for a in args)
     ctx.cov.setdefault('bursts', []).append({'mode': mode, 'values': {k: len(v) for k, v in vals.items()}})
     ctx.ob('freshness', f'concd {mode}: {instances} instances created by {instances} different threads, each first used by {threads} threads at once, {calls} calls per thread{what}: every call succeeds, {tot} values pairwise distinct over all instances',
            not dup and not fails and len(done) == instances * threads, (str(dup)[:300] + ' ' + ' '.join(fails[:2]))[:600])
+    if any('did not finish within' in f for f in fails): ctx.conc_dead = True
     if fails or len(done) != instances * threads:
         vf.violation(ctx, 'concurrent first use of fresh instances: ' + (fails[0] if fails else f'only {len(done)} of {instances * threads} threads finished'), {'mode': mode, 'config': 'default', 'output': '\n'.join(fails[-10:])})
     if dup:
